@@ -444,6 +444,22 @@ def main():
         if not h['ok'] and not h.get('undecided'):
             kres.setdefault('counterexamples', {})[h['name']] = 'rustc rejects the obligation (no input needed: it fails for every execution):\n' + (h.get('log') or '')
 
+    # ---- RFC 9180 A.1.1 known answers, run natively (C02 only): not a proof obligation.  On the unchanged tree it validates
+    # the transcription of spec/rfc9180.rs (assumption D: the code is PROVED equal to the spec functions and reproduces the
+    # RFC's published vector); when it fails it is a concrete failing input for "byte-identical to RFC 9180"
+    kat = None
+    if pid == 'C02' and not os.environ.get('VERIF_SKIP_KANI'):
+        import kat_run
+        try:
+            kat = kat_run.run()
+        except Exception as e:
+            kat = {'ok': False, 'failed_natively': False, 'compiled': False, 'output': repr(e)}
+        if kat.get('failed_natively'):
+            obligations.append({'name': 'RFC 9180 Appendix A.1.1 known answers (native run of the real code)', 'backend': 'native known-answer run',
+                                'status': 'FAILED', 'detail': 'the real code does not reproduce the published vector'})
+            kres.setdefault('counterexamples', {})['RFC 9180 Appendix A.1.1 known answers (native run of the real code)'] = \
+                'FAILS natively (the published RFC 9180 A.1.1 vector is the failing input):\n' + kat['output']
+
     # ---- vacuity guards
     vac = []
     if tier == 'thorough' and verus_undecided is None:
@@ -519,7 +535,7 @@ def main():
 
     wall = time.time() - t0
     discharged = [o for o in obligations if o['status'] == 'discharged']
-    counted = [o for o in obligations if o['status'] in ('discharged', 'FAILED') and not o.get('bounded')]
+    counted = [o for o in obligations if o['status'] in ('discharged', 'FAILED') and not o.get('bounded') and o['backend'] != 'native known-answer run']
     assumed = [o for o in obligations if o['status'] == 'assumed']
     bounded = [o for o in obligations if o.get('bounded')]
     ev = {
@@ -532,6 +548,7 @@ def main():
             'functions_under_contract': sorted(set('%s::%s%s' % (fn['rel'], fn['fname'], ' [assumed in Verus, discharged by %s]' % fn['discharged_by'] if fn['external'] else '') for fn in fn_set)),
             'samples': [o['name'] for o in obligations[:12]],
             'verus_status': verus_undecided or 'ok',
+            'assumption_validation': ({'rfc9180_A_1_1_known_answers_native': kat} if kat else None),
             'backends': {'verus': {'obligations': n_verus, 'whole_crate_verified_fns': vz['verified'], 'whole_crate_errors': vz['errors'],
                                    'smt_ms': vz.get('smt_ms'), 'wall_s': vz.get('wall_s'), 'cached_shared_run': res.get('cached', False)},
                          'kani': {'harnesses': [{k: h.get(k) for k in ('name', 'ok', 'time_s', 'bound', 'complete')} for h in kres.get('harnesses', [])]},
